@@ -134,7 +134,14 @@ def build(verbose=False, jobs=None):
         import regions
         importlib.reload(regions)
         st.translator = regions.generate(REPO, COQ, os.path.join(COQ, 'golden'))
-        if not os.path.exists(os.path.join(COQ, 'Makefile')):
+        # the project file lists the .v files present; regenerate it (and the Makefile) whenever that set changed
+        present = sorted(f for f in os.listdir(COQ) if f.endswith('.v')) + \
+            sorted('Properties/' + f for f in os.listdir(os.path.join(COQ, 'Properties')) if f.endswith('.v'))
+        try:
+            listed = [l.strip() for l in open(os.path.join(COQ, '_CoqProject')) if l.strip().endswith('.v')]
+        except OSError:
+            listed = []
+        if not os.path.exists(os.path.join(COQ, 'Makefile')) or sorted(listed) != sorted(present):
             sh('./mkproject.sh', cwd=COQ)
         rc, out = sh(f'timeout 3000 make -k -j{jobs}', cwd=COQ, timeout=3100)
         st.make_log = out
